@@ -4,6 +4,10 @@ T-gen : translator/gen_cbca_kernels.py rewrites coq/Gen/CbcaKernels.v from the `
         (cbca_step_1..4, cross_support) as trees of the IR of Lib/KernelIR.v; Props/C11.v re-proves at every run
         that they are the canonical trees (C11_gen_*_canonical) for which Proofs/CbcaIRP.v proves, for all inputs,
         evaluation = Model/Cbca.v (C11_gen_*_eq) and the headline on the generated kernels (C11_gen_model_eq_spec).
+T-corr (kernels): the IR evaluator extracted with the REGENERATED trees (Extract/X11K.v) against the compiled numba
+        kernels called one by one on inputs the pipeline never produces (arbitrary arm tables inside their bounds,
+        arbitrary running sums, NaN / +-inf pixels and costs, shuffled range_col, empty axes), compared for equality:
+        validates the semantics written in Lib/KernelIR.v and the translator.
 T-corr: the extracted model (Model/Cbca.v: mask -> NaN, 3x3 median, shifted right masks, crop,
         cross_support loops, cbca_step_1..4 with their sentinel reads, anchor, NaN re-injection,
         normalisation, plane loop) against the REAL code driven as the state machine drives it:
@@ -22,8 +26,8 @@ from harness import core
 from harness import pandora_util as pu
 
 GEN = ["gen_cbca_kernels"]
-EXTRACT_FILES = ["X11"]
-DRIVERS = ["x11"]
+EXTRACT_FILES = ["X11", "X11K"]
+DRIVERS = ["x11", "x11k"]
 RULE = ("one case = one image pair (5..12 x 6..14, integer radiometry, flat / piecewise-constant / ramp / noisy "
         "textures so that arms are long, cut by intensity jumps, by masks or by the image sides), masks on none / "
         "left / right / both sides (pixels, blocks, whole columns; several mask conventions), matching cost sad or "
@@ -380,6 +384,214 @@ def _first_diff(a, b, path=()):
     return None if a == b else {"at": list(path), "impl": a, "model": b}
 
 
+
+# ---------------------------------------------------------------- direct correspondence: IR evaluator on the
+# regenerated trees (Extract/X11K.v) = compiled numba kernels
+
+
+def _cell(x):
+    """numpy scalar -> cell of the extraction protocol / canonical form: int, Fraction, None (NaN), [1] / [-1] (inf)"""
+    if isinstance(x, (int, np.integer)):
+        return int(x)
+    x = float(x)
+    if math.isnan(x):
+        return None
+    if math.isinf(x):
+        return [1] if x > 0 else [-1]
+    return F(*x.as_integer_ratio())
+
+
+def _cells(a):
+    a = np.asarray(a)
+    if a.ndim == 0:
+        return _cell(a[()])
+    return [_cells(x) for x in a]
+
+
+def _arr(a):
+    """(shape, nested cells)"""
+    a = np.asarray(a)
+    return [list(a.shape), _cells(a)]
+
+
+def _canon(v):
+    """decoded model cell / nested -> canonical python (Fraction for (n d), None for ())"""
+    if isinstance(v, int):
+        return v
+    if v == []:
+        return None
+    return v
+
+
+def _model_arrays(res):
+    """decoded enc_res -> list of (shape, nested) with cells canonical; None when the evaluation failed"""
+    if isinstance(res, int):
+        return None
+    out = []
+    for a in res:
+        shape, data = a[0], a[1]
+
+        def conv(x, depth):
+            if depth == 0:
+                if isinstance(x, int):
+                    return x
+                if x == []:
+                    return None
+                if len(x) == 2:
+                    return F(x[0], x[1])
+                return x
+            return [conv(y, depth - 1) for y in x]
+        out.append([shape, conv(data, len(shape))])
+    return out
+
+
+def _impl_arrays(arrs):
+    out = []
+    for a in arrs:
+        a = np.asarray(a)
+        shape, data = list(a.shape), _cells(a)
+
+        def conv(x, depth):
+            if depth == 0:
+                if isinstance(x, F) and x.denominator == 1 and False:
+                    return x
+                return x
+            return [conv(y, depth - 1) for y in x]
+        out.append([shape, conv(data, len(shape))])
+    return out
+
+
+def _same(impl, model):
+    """exact comparison; an int of the model equals the same float of the implementation (dtype promotion)"""
+    if isinstance(impl, list) and isinstance(model, list):
+        return len(impl) == len(model) and all(_same(a, b) for a, b in zip(impl, model))
+    if isinstance(impl, list) or isinstance(model, list):
+        return False
+    if impl is None or model is None:
+        return impl is None and model is None
+    return F(impl) == F(model)
+
+
+def _rand_arms(rng, nr, nc, bounded):
+    """(nr, nc, 4) int16: [left, right, top, bot]; bounded = inside the image (the left table), else only >= 0"""
+    a = np.zeros((nr, nc, 4), dtype=np.int16)
+    for r in range(nr):
+        for c in range(nc):
+            if bounded:
+                lim = [c, nc - 1 - c, r, nr - 1 - r]
+                a[r, c] = [rng.randrange(0, x + 1) if rng.random() < 0.8 else x for x in lim]
+            else:
+                a[r, c] = [rng.choice([0, 0, 1, 2, 3, 9, 300]) for _ in range(4)]
+    return a
+
+
+def _rand_cols(rng, nc, nc_r):
+    k = rng.randrange(0, nc + 1)
+    rc = rng.sample(range(nc), k)
+    if rng.random() < 0.6:
+        rc.sort()
+    rcr = [rng.randrange(nc_r) for _ in rc]
+    return np.array(rc, dtype=np.int64), np.array(rcr, dtype=np.int64)
+
+
+def _rand_floats(rng, nr, nc, dtype, special):
+    a = np.zeros((nr, nc), dtype=dtype)
+    for r in range(nr):
+        for c in range(nc):
+            u = rng.random()
+            if u < special:
+                a[r, c] = rng.choice([np.nan, np.nan, np.nan, np.inf, -np.inf])
+            else:
+                a[r, c] = rng.randrange(-60, 61) * rng.choice([1, 1, 0.5, 0.25])
+    return a
+
+
+def kernel_cases(rng, n):
+    """n direct calls per kernel: (fid, name, impl thunk, model argument, replay description)"""
+    from pandora.aggregation import cbca
+
+    out = []
+    for i in range(n):
+        # ---- cross_support
+        nr, nc = rng.randrange(1, 8), rng.randrange(1, 9)
+        if i % 15 == 0:
+            nr, nc = rng.choice([(0, 3), (3, 0), (1, 1)])
+        amp = rng.choice([4, 12, 60])
+        img = np.zeros((nr, nc), dtype=np.float32)
+        for r in range(nr):
+            for c in range(nc):
+                u = rng.random()
+                img[r, c] = (np.inf if u < 0.15 else np.nan if u < 0.18 else -np.inf if u < 0.21
+                             else rng.randrange(0, amp) + rng.choice([0, 0, 0.5]))
+        length = rng.choice([1, 1, 2, 2, 3, 4, 6, 40000])
+        inten = F(rng.randrange(1, 41), rng.choice([1, 1, 2, 4]))
+        out.append((1, "cross_support",
+                    (lambda img=img, length=length, inten=inten:
+                     [cbca.cross_support(img, length, np.float32(float(inten)))]),
+                    [length, inten] + _arr(img),
+                    {"kernel": "cross_support", "len_arms": length, "intensity": str(inten), "image": img.tolist()}))
+        # ---- cbca_step_1
+        nr, nc = rng.randrange(1, 7), rng.randrange(1, 9)
+        if i % 15 == 1:
+            nr, nc = rng.choice([(0, 3), (3, 0), (1, 1)])
+        cv = _rand_floats(rng, nr, nc, np.float32, rng.choice([0.0, 0.15, 0.4]))
+        out.append((2, "cbca_step_1", (lambda cv=cv: [cbca.cbca_step_1(cv)]), _arr(cv),
+                    {"kernel": "cbca_step_1", "cv": cv.tolist()}))
+        # ---- cbca_step_2
+        nr, nc, nc_r = rng.randrange(1, 6), rng.randrange(1, 8), rng.randrange(1, 8)
+        s1 = _rand_floats(rng, nr, nc + 1, np.float64, rng.choice([0.0, 0.0, 0.1]))
+        c_l, c_r = _rand_arms(rng, nr, nc, True), _rand_arms(rng, nr, nc_r, False)
+        rc, rcr = _rand_cols(rng, nc, nc_r)
+        out.append((3, "cbca_step_2",
+                    (lambda s1=s1, c_l=c_l, c_r=c_r, rc=rc, rcr=rcr: list(cbca.cbca_step_2(s1, c_l, c_r, rc, rcr))),
+                    _arr(s1) + _arr(c_l) + _arr(c_r) + [_cells(rc), _cells(rcr)],
+                    {"kernel": "cbca_step_2", "step1": s1.tolist(), "cross_left": c_l.tolist(),
+                     "cross_right": c_r.tolist(), "range_col": rc.tolist(), "range_col_right": rcr.tolist()}))
+        # ---- cbca_step_3
+        nr, nc = rng.randrange(1, 7), rng.randrange(1, 9)
+        if i % 15 == 2:
+            nc = 0
+        s2 = _rand_floats(rng, nr, nc, np.float64, rng.choice([0.0, 0.0, 0.1]))
+        out.append((4, "cbca_step_3", (lambda s2=s2: [cbca.cbca_step_3(s2)]), _arr(s2),
+                    {"kernel": "cbca_step_3", "step2": s2.tolist()}))
+        # ---- cbca_step_4
+        nr, nc, nc_r = rng.randrange(1, 6), rng.randrange(1, 8), rng.randrange(1, 8)
+        s3 = _rand_floats(rng, nr + 1, nc, np.float64, rng.choice([0.0, 0.0, 0.1]))
+        sm2 = np.array([[rng.randrange(0, 12) for _ in range(nc)] for _ in range(nr)], dtype=np.float32).reshape(nr, nc)
+        c_l, c_r = _rand_arms(rng, nr, nc, True), _rand_arms(rng, nr, nc_r, False)
+        rc, rcr = _rand_cols(rng, nc, nc_r)
+        out.append((5, "cbca_step_4",
+                    (lambda s3=s3, sm2=sm2, c_l=c_l, c_r=c_r, rc=rc, rcr=rcr:
+                     list(cbca.cbca_step_4(s3, sm2, c_l, c_r, rc, rcr))),
+                    _arr(s3) + _arr(sm2) + _arr(c_l) + _arr(c_r) + [_cells(rc), _cells(rcr)],
+                    {"kernel": "cbca_step_4", "step3": s3.tolist(), "sum2": sm2.tolist(), "cross_left": c_l.tolist(),
+                     "cross_right": c_r.tolist(), "range_col": rc.tolist(), "range_col_right": rcr.tolist()}))
+    return out
+
+
+def kernel_correspondence(ctx, n):
+    cases = kernel_cases(ctx.rng, n)
+    mres = core.Model("x11k").batch([(fid, arg) for fid, _, _, arg, _ in cases])
+    for (fid, name, thunk, _, desc), res in zip(cases, mres):
+        impl = _impl_arrays(thunk())
+        model = _model_arrays(res)
+        ctx.traces += 1
+        ctx.count("kernel_calls_" + name)
+        if model is None:
+            ctx.mismatch("kernel_ir:" + name, desc, "the compiled kernel returned", "the IR evaluation failed "
+                         "(access outside an array or type error)")
+        elif not _same(impl, model):
+            ctx.mismatch("kernel_ir:" + name, desc, _first_diff(_plain(impl), _plain(model)), "IR evaluator differs")
+
+
+def _plain(x):
+    if isinstance(x, list):
+        return [_plain(y) for y in x]
+    if isinstance(x, F):
+        return float(x)
+    return x
+
+
 def prepare(ctx, case):
     """build the real pre-aggregation volume and the model argument; None when outside the exact domain"""
     from pandora.img_tools import shift_right_img
@@ -447,6 +659,7 @@ def run(ctx):
     if getattr(ctx, "replay_case", None) is not None:
         cases = [dict(ctx.replay_case)]
     else:
+        kernel_correspondence(ctx, 60 if quick else 600)
         n = 150 if quick else 3000
         cases = [dict(c) for c in CORPUS]
         # long arms and arms cut by masks / sides are forced on a share of the cases
